@@ -531,14 +531,23 @@ func c14Body(c *fw.Ctx) {
 	bound := 1
 	maxPer := int64(200000)
 	if c.Thorough() {
-		bound = 2
-		maxPer = 60000
+		maxPer = 30000 // cap for the bound-2 pass (bound 0 and 1 are always complete below 200000)
+	}
+	quickSet := func(sc c14Scenario) bool { // the scenarios of the quick tier: they get the deeper bound in the thorough tier
+		if len(sc.Threads) != 2 || len(sc.Threads[0]) != 1 || len(sc.Threads[1]) != 1 {
+			return true
+		}
+		a, b := sc.Threads[0][0], sc.Threads[1][0]
+		return c14Group(a) == c14Group(b) || a == generic || b == generic
 	}
 	c.Space("schedules")
-	c.Count("preemption_bound", 0)
+	c.Count("preemption_bound_all_scenarios", 0)
 	c.Count("scenarios_total", 0)
 	if c.Shard == 0 {
-		c.Count("preemption_bound", int64(bound))
+		c.Count("preemption_bound_all_scenarios", int64(bound))
+		if c.Thorough() {
+			c.Count("preemption_bound_quick_tier_scenarios", 2)
+		}
 		c.Count("scenarios_total", int64(len(scenarios)))
 	}
 	for _, sc := range scenarios {
@@ -573,9 +582,17 @@ func c14Body(c *fw.Ctx) {
 		// iterative preemption bounding: 0, 1, ... bound (a run with bound b re-covers the smaller bounds; the
 		// 0-bound pass is run first on its own so that the simplest counterexample is reported first)
 		found := false
-		for _, b := range []int{0, bound} {
-			if found || (b == 0 && bound == 0) {
+		bounds := []int{0, bound}
+		if c.Thorough() && quickSet(sc) {
+			bounds = []int{0, 1, 2}
+		}
+		for _, b := range bounds {
+			if found {
 				continue
+			}
+			maxPer := maxPer
+			if b <= 1 {
+				maxPer = 200000
 			}
 			before := globalsFingerprint()
 			perExec := false
@@ -636,7 +653,7 @@ func c14Body(c *fw.Ctx) {
 			if !comp && !found {
 				c.Incomplete(fmt.Sprintf("schedule cap %d per scenario reached at preemption bound %d in some scenarios: those are covered completely at bound 0 and for the bound-%d schedules enumerated before the cap", maxPer, b, b))
 			}
-			if nexec > 1 && b == bound && c.Shard == 0 {
+			if nexec > 1 && b == 1 && c.Shard == 0 {
 				c.Nontrivial()
 			}
 		}
